@@ -72,8 +72,20 @@ def r11_2(ctx):
     for p in ('sharded::Cache::set', 'sharded::Cache::put'):
         q = ctx.explore(ctx.key_of(p))
         pubs = q.prim_edges({'publish_replace', 'publish_excl'})
-        probes = [e for e in q.prim_edges('probe') if q.E[e][2]['path'] in ('std::fs::metadata', 'std::fs::symlink_metadata', 'std::path::Path::exists', 'std::fs::exists')
-                  and any(VAL[s][0] == 'sym' and VAL[s][1] == 'fld' and VAL[VAL[s][2]][0] == 'sym' and VAL[VAL[s][2]][1] == 'param' for s in values.subs(q.E[e][2]['args'][0]))]
+        T = tags_of(ctx)
+
+        def is_key_probe(ev):
+            # a stat of (some candidate shard directory + the raw key name)
+            if ev['path'] not in ('std::fs::metadata', 'std::fs::symlink_metadata', 'std::path::Path::exists', 'std::fs::exists', 'std::path::Path::try_exists'):
+                return False
+            d, leaf = T.split_path(ev['args'][0])
+            if leaf is None:
+                return False
+            tl = VAL[leaf]
+            raw_name = tl[0] == 'sym' and tl[1] in ('fld', 'param') and any(VAL[s_][0] == 'sym' and VAL[s_][1] == 'param' for s_ in values.subs(leaf))
+            validated = 'KeyNameValidated' in T.tags(leaf)
+            return (raw_name or validated) and bool(shard_ids_in(d))
+        probes = [e for e in q.prim_edges('probe') if is_key_probe(q.E[e][2])]
         bad = q.must_precede(probes, pubs)
         out.append(inst('R11.2', p + '|probe precedes publish', bool(probes) and not bad,
                         'the other candidate shard is probed for the key before every publish (%d publish events)' % len(pubs) if probes and not bad else
